@@ -2,6 +2,8 @@
 //! timelock, competition, liquidity-provider) and in the SDK's view of their accounts.
 mod c15;
 mod c18;
+mod c35;
+mod tlworld;
 mod cfgkeys;
 mod defaults;
 mod svm;
@@ -29,6 +31,8 @@ fn main() {
         "C16" => cfgkeys::run_c16(&cli),
         "C17" => cfgkeys::run_c17(&cli),
         "C18" => c18::run(&cli),
+        "C35" => c35::run(&cli),
+        "C36" => tlworld::run_c36(&cli),
         other => {
             eprintln!("unknown property {other}");
             std::process::exit(2)
